@@ -11,7 +11,7 @@ LEVEL = "model_checking"
 def run(ctx):
     ctx.build_mvh()
     rng = random.Random(ctx.seed)
-    scs = scenarios.fam_fanout(rng, 600 if ctx.thorough() else 40, ctx.thorough())
+    scs = scenarios.fam_fanout(rng, 600 if ctx.thorough() else 40, ctx.thorough()) + scenarios.fam_udp(rng, 60 if ctx.thorough() else 8)
     _node.run_family(ctx, scs, ["C11."], family="fanout", rule=(
         "2..5 custom channels, 2..4 writer goroutines issuing 20..200 mixed WriteMessage{All,To,Except} / WriteFrame{All,To,Except} "
         "calls with unique tags while frames arrive and events are consumed, targets including a closed channel instance and a foreign "
